@@ -408,6 +408,40 @@ Section Foot.
           eapply hoare_bind; [apply hoare_mwrite; exact Hr|]; intros _ n5 Hn5 _. apply Hret; lia.
   Qed.
 
+  (* t + x out of place: reads only, at most one fresh buffer *)
+  Lemma hoare_oadd n t x : hoare n (oadd t x) (fun a n' => vokn n' a).
+  Proof.
+    unfold oadd. destruct t as [|c cx np|r ix shp]; try apply hoare_fail.
+    eapply hoare_bind; [apply hoare_mcplx|]; intros tcx n1 _ _.
+    eapply hoare_bind; [apply hoare_mread|]; intros cur n2 _ _.
+    destruct x as [|c' cx' np'|r' ix' shp']; [apply hoare_fail| |].
+    - destruct shp; [apply hoare_ret; auto|apply hoare_new_array].
+    - eapply hoare_bind; [apply hoare_mread|]; intros d n3 _ _.
+      eapply hoare_bind; [apply hoare_mcplx|]; intros cx0 n4 _ _.
+      destruct shp' as [|z' shp'], shp as [|z shp]; try apply hoare_new_array; [apply hoare_ret; auto|].
+      destruct (negb (Zl_eqb (z' :: shp') (z :: shp))); [apply hoare_fail|apply hoare_new_array].
+  Qed.
+
+  (* try / except TypeError *)
+  Lemma hoare_catch_type {A} n (m h : M A) (Q : A -> nat -> Prop) :
+    hoare n m Q -> (forall n1, n <= n1 -> hoare n1 h Q) -> hoare n (catch_type m h) Q.
+  Proof.
+    intros Hm Hh w HI Hn w' r H. unfold catch_type in H.
+    destruct (m w) as [w1 r1] eqn:E. destruct (Hm w HI Hn _ _ E) as (HI1 & HR1 & HQ1).
+    assert (Hn1 : n <= length (heap w1)) by (pose proof (rw_heap _ _ HR1); lia).
+    destruct r1 as [a|e].
+    - inversion H; subst. split; [exact HI1|split; [exact HR1|exact HQ1]].
+    - destruct e; try (inversion H; subst; split; [exact HI1|split; [exact HR1|intros b Hb; discriminate]]).
+      destruct (Hh _ Hn1 w1 HI1 (le_n _) _ _ H) as (HI2 & HR2 & HQ2).
+      split; [exact HI2|split; [eapply Rw_trans; eauto|exact HQ2]].
+  Qed.
+
+  Lemma hoare_iadd_promote n t x : vokn n t -> hoare n (iadd_promote t x) (fun a n' => vokn n' a).
+  Proof.
+    intros Ht. unfold iadd_promote. apply hoare_catch_type; [apply hoare_iadd; exact Ht|].
+    intros n1 _. apply hoare_oadd.
+  Qed.
+
   Lemma hoare_get_se n p : hoare n (get_se i p) (fun a n' => vokn n' a).
   Proof.
     unfold get_se. revert n. induction p as [|s p IH]; intros n; cbn.
@@ -466,7 +500,7 @@ Section Foot.
     - eapply hoare_bind; [apply hoare_get_se|]. intros cur n1 Hn1 Hcur.
       destruct (is_none cur).
       + eapply hoare_bind; [apply hoare_deepcopy|]. intros c n2 Hn2 Hc. apply hoare_set_se; exact Hc.
-      + eapply hoare_bind; [apply hoare_iadd; exact Hcur|]. intros t n2 Hn2 Ht. apply hoare_set_se; exact Ht.
+      + eapply hoare_bind; [apply hoare_iadd_promote; exact Hcur|]. intros t n2 Hn2 Ht. apply hoare_set_se; exact Ht.
     - eapply hoare_bind; [apply hoare_get_se|]. intros bs n1 Hn1 Hbs.
       eapply hoare_bind with (Q := T).
       + destruct (is_none bs); [|apply hoare_ret; intros; exact I].
@@ -1680,6 +1714,45 @@ Proof.
   revert i; induction l as [|h t IH]; intros [|i]; cbn; auto. f_equal. apply IH.
 Qed.
 
+(* when the in-place addition is admissible (fits: complex only onto complex) nothing is caught *)
+Lemma iadd_promote_fits r ix shp x w :
+  fits (heap w) x shp (length ix) (bcplx (getbuf (heap w) r)) ->
+  iadd_promote (VWin r ix shp) x w =
+    (set_heap w (hwrite (heap w) r ix (map2 cadd (rd (heap w) r ix) (vdata (heap w) x (length ix)))), Ok (VWin r ix shp)).
+Proof. intros Hf. unfold iadd_promote, catch_type. rewrite (iadd_fits r ix shp x w Hf). reflexivity. Qed.
+
+(* a complex contribution (scalar, or array of the target's non 0-d shape) onto a NON-complex array *)
+Definition promotes (h : list buf) (x : val) (shp : list Z) (n : nat) (tcx : bool) : Prop :=
+  tcx = false /\ vcplx h x = true /\ shp <> [] /\
+  match x with
+  | VNone => False
+  | VScal _ _ _ => True
+  | VWin r ix shp' => shp' = shp /\ length ix = n
+  end.
+
+Lemma promotes_not_none h x shp n tcx : promotes h x shp n tcx -> is_none x = false.
+Proof. intros (_ & _ & _ & Hx). destruct x; [destruct Hx|reflexivity|reflexivity]. Qed.
+
+(* the in-place addition is refused and the sum is built out of place: the world is only extended by ONE fresh buffer
+   (complex) holding old + ds; nothing that existed is written *)
+Lemma iadd_promote_promotes r ix shp x w :
+  promotes (heap w) x shp (length ix) (bcplx (getbuf (heap w) r)) ->
+  iadd_promote (VWin r ix shp) x w =
+    (set_heap w (heap w ++ [{| bdata := map2 cadd (rd (heap w) r ix) (vdata (heap w) x (length ix)); bcplx := true |}]),
+     Ok (VWin (length (heap w)) (whole (length ix)) shp)).
+Proof.
+  intros (Ht & Hc & Hne & Hx). unfold iadd_promote, catch_type.
+  destruct x as [|c cx np|r' ix' shp']; [destruct Hx| |].
+  - cbn in Hc. subst cx. cbn [iadd oadd]. unfold bind, mcplx, mread. rewrite Ht. cbn [andb negb fail].
+    unfold bind, mcplx, mread. rewrite Ht. destruct shp as [|z shp]; [congruence|].
+    unfold new_array, bind, halloc, ret. cbn [orb vdata]. rewrite map_cadd_repeat, rd_length.
+    rewrite map2_length by (rewrite repeat_length, rd_length; reflexivity). rewrite rd_length. reflexivity.
+  - destruct Hx as (-> & Hl). cbn in Hc. cbn [iadd oadd]. unfold bind, mcplx, mread. rewrite Ht, Hc. cbn [andb negb fail].
+    unfold bind, mcplx, mread. rewrite Ht, Hc. destruct shp as [|z shp]; [congruence|].
+    rewrite Zl_eqb_refl. cbn [negb orb vdata]. unfold new_array, bind, halloc, ret.
+    rewrite map2_length by (rewrite !rd_length; exact Hl). rewrite rd_length. reflexivity.
+Qed.
+
 (* later contributions are added in place: same object, entries increased by the current data of ds *)
 Theorem add_se_root_accumulate i w rs ixs shp ds :
   i < length (roots w) -> r_se (root w i) = VWin rs ixs shp ->
@@ -1689,12 +1762,62 @@ Theorem add_se_root_accumulate i w rs ixs shp ds :
 Proof.
   intros Hi H Hf. unfold add_se. rewrite (fits_not_none _ _ _ _ _ Hf). unfold get_se. cbn [get_fld].
   unfold bind at 1. unfold bind at 1. unfold get_root at 1. unfold ret at 1. fold (root w i). rewrite H. cbn [is_none].
-  rewrite (bind_ok _ _ _ _ _ (iadd_fits rs ixs shp ds w Hf)).
+  rewrite (bind_ok _ _ _ _ _ (iadd_promote_fits rs ixs shp ds w Hf)).
   cbn [set_se]. unfold bind, get_root, put_root. cbn [roots set_heap heap vars].
   replace {| r_st := r_st (nth i (roots w) root0); r_se := VWin rs ixs shp; r_keep := r_keep (nth i (roots w) root0) |}
     with (nth i (roots w) root0).
   - rewrite upd_same. unfold set_roots, set_heap. cbn. reflexivity.
   - unfold root in H. destruct (nth i (roots w) root0) as [a b c]. cbn in *. subst b. reflexivity.
+Qed.
+
+(* a contribution the held array cannot take in place (complex onto non-complex, F37): the sensitivity field is
+   re-bound to a FRESH complex array of the same shape holding old + ds.  The fresh buffer has the first unused
+   index, so it is referenced by nothing else (not by ds, not by the old sensitivity, no variable, no state); the
+   old buffer and every other buffer keep their contents (the heap is only extended); state and keep_alloc of the
+   signal and all other signals are unchanged. *)
+Theorem add_se_root_promote i w rs ixs shp ds :
+  i < length (roots w) -> r_se (root w i) = VWin rs ixs shp ->
+  promotes (heap w) ds shp (length ixs) (bcplx (getbuf (heap w) rs)) ->
+  add_se i [] ds w =
+    (set_roots (set_heap w (heap w ++ [{| bdata := map2 cadd (rd (heap w) rs ixs) (vdata (heap w) ds (length ixs));
+                                          bcplx := true |}]))
+       (upd (roots w) i {| r_st := r_st (root w i);
+                           r_se := VWin (length (heap w)) (whole (length ixs)) shp;
+                           r_keep := r_keep (root w i) |}), Ok tt).
+Proof.
+  intros Hi H Hp. unfold add_se. rewrite (promotes_not_none _ _ _ _ _ Hp). unfold get_se. cbn [get_fld].
+  unfold bind at 1. unfold bind at 1. unfold get_root at 1. unfold ret at 1. fold (root w i). rewrite H. cbn [is_none].
+  rewrite (bind_ok _ _ _ _ _ (iadd_promote_promotes rs ixs shp ds w Hp)).
+  cbn [set_se]. unfold bind, get_root, put_root. cbn [roots set_heap heap vars]. reflexivity.
+Qed.
+
+(* what the promoted sensitivity reads: old + ds, entry by entry; and the old buffer still reads the old values *)
+Corollary add_se_root_promote_reads i w rs ixs shp ds w' :
+  i < length (roots w) -> r_se (root w i) = VWin rs ixs shp -> rs < length (heap w) ->
+  promotes (heap w) ds shp (length ixs) (bcplx (getbuf (heap w) rs)) ->
+  add_se i [] ds w = (w', Ok tt) ->
+  exists rn, r_se (root w' i) = VWin rn (whole (length ixs)) shp /\ rn = length (heap w) /\
+    bcplx (getbuf (heap w') rn) = true /\
+    rd (heap w') rn (whole (length ixs)) = map2 cadd (rd (heap w) rs ixs) (vdata (heap w) ds (length ixs)) /\
+    same_old (heap w) (heap w') /\ vars w' = vars w /\
+    r_st (root w' i) = r_st (root w i) /\ r_keep (root w' i) = r_keep (root w i) /\
+    (forall j, j <> i -> root w' j = root w j).
+Proof.
+  intros Hi H Hrs Hp E. rewrite (add_se_root_promote i w rs ixs shp ds Hi H Hp) in E. inversion E; subst; clear E.
+  exists (length (heap w)). unfold root. cbn [roots set_roots set_heap heap vars].
+  rewrite nth_upd_eq by exact Hi. cbn [r_se r_st r_keep].
+  assert (Hlen : length (map2 cadd (rd (heap w) rs ixs) (vdata (heap w) ds (length ixs))) = length ixs).
+  { destruct Hp as (_ & _ & _ & Hx). rewrite map2_length; [apply rd_length|]. rewrite rd_length.
+    destruct ds as [|c cx np|r' ix' shp']; [destruct Hx| |]; cbn [vdata].
+    - apply repeat_length.
+    - destruct Hx as [_ Hl]. rewrite rd_length. exact Hl. }
+  repeat split; try reflexivity.
+  - unfold getbuf. rewrite app_nth2 by lia. rewrite Nat.sub_diag. reflexivity.
+  - pose proof (rd_whole_new (heap w) (map2 cadd (rd (heap w) rs ixs) (vdata (heap w) ds (length ixs))) true) as R.
+    rewrite Hlen in R. exact R.
+  - rewrite app_length; cbn; lia.
+  - intros r Hr. apply getbuf_app_old. exact Hr.
+  - intros j Hj. apply nth_upd_neq. congruence.
 Qed.
 
 Theorem add_se_none i p w : add_se i p VNone w = (w, Ok tt).
